@@ -490,6 +490,15 @@ func runC30(c *Ctx) {
 }
 
 func runC31(c *Ctx) {
+	{
+		var liteFns []*ssa.Function
+		for _, f := range c.P.Funcs(Mod + "/" + pkgLite) {
+			if fnPkgPath(f) == Mod+"/"+pkgLite {
+				liteFns = append(liteFns, f)
+			}
+		}
+		checkNoReusedBufferEscape(c, "payload-owned", liteFns, 1)
+	}
 	dr := c.MustFunc(pkgLite + ":dialRoute")
 	wp := c.MustFunc(pkgLite + ":writePacket")
 	fw := c.MustFunc(pkgLite + ":Forward")
